@@ -244,6 +244,16 @@ func main() {
 					out.Write(b)
 					out.WriteByte('\n')
 				}
+			} else if probe.Mode == "fwstorm" {
+				var fc FwStormCase
+				if jerr := json.Unmarshal(line, &fc); jerr != nil {
+					fmt.Fprintln(out, `{"name":"?","note":"bad-case"}`)
+				} else {
+					r := runFwStorm(fc)
+					b, _ := json.Marshal(r)
+					out.Write(b)
+					out.WriteByte('\n')
+				}
 			} else if probe.Mode == "plan" {
 				var pc PlanCase
 				if jerr := json.Unmarshal(line, &pc); jerr != nil {
